@@ -22,7 +22,9 @@
 (* Two things the reader must NOT depend on are explicit dimensions:       *)
 (*   precap  the capacity the destination buffer already has when the call *)
 (*           starts ("fresh", "small" <= lim, "big" > every total): a      *)
-(*           reused Response/Request object, a caller-supplied dst         *)
+(*           reused Response/Request object, a caller-supplied dst; and    *)
+(*           "streamed": the object was last used in streaming mode and    *)
+(*           recycled -- the earlier use of the destination in general     *)
 (*   claim   what the stream says about its own size (gzip ISIZE trailer   *)
 (*           of the last member): "true", "low" (<= lim although the real  *)
 (*           total may be larger), "high" (> lim).  For "probe" inputs the *)
@@ -43,7 +45,9 @@ Comps(n) == IF n = 0 THEN { <<>> }
             ELSE UNION { { <<k>> \o c : c \in Comps(n - k) } : k \in 1..n }
 
 Expected(l, t, c) == IF t > l THEN "rejected" ELSE IF c = "true" THEN "accepted" ELSE "any"
-PreCaps(k) == IF k = "head" THEN {"fresh"} ELSE {"fresh", "small", "big"}
+\* "streamed": the destination object was last used by a STREAMING reader (Response.StreamBody /
+\* HostClient.StreamResponseBody) and then recycled (Reset, or Release + Acquire from the pool)
+PreCaps(k) == IF k = "head" THEN {"fresh"} ELSE {"fresh", "small", "big", "streamed"}
 Claims(k) == IF k = "probe" THEN {"true", "low", "high"} ELSE {"true"}
 
 VARIABLES lim, kind, total, pieces, buffered, st, returned, precap, claim
